@@ -6,6 +6,13 @@
 // exceed the last callback's, nor the legalized one's (first Detailed callback = the legalized
 // placement detailed placement starts from).
 //
+// One generated case in three runs Circuit::placeDetailed on an object with a PAST (common/past.hpp; family: state kept
+// inside the Circuit between calls that a setter forgets to refresh, e.g. a memoised computeRows() / hpwl() not invalidated
+// by setupRows / setNetWeights): built in a perturbed state, observers called, brought to the case's public state through
+// only the needed setters.  legalize alone and the direct run (the references) stay on fresh objects, so the same oracle and
+// the same correspondence apply (in particular: same move history as the direct run).  The recipe is part of the failure
+// input and read back by --replay.
+//
 // Known finding KF-C05-1 (classifier `orientation_changing_move`): the optimiser's incremental net
 // model freezes the pin offsets when it is built, although DetailedPlacement::place re-orients
 // SAME/OPPOSITE cells that change rows.  An increase between an earlier and a later state is
@@ -194,8 +201,8 @@ struct Runner {
   }
 
   // the forked part of a case as one string (computed by a worker process in the main loop)
-  static std::string compute(const Circuit &input, const vd::Params &prm, bool wantDirect) {
-    vd::Run r = vd::runCase(input, prm);
+  static std::string compute(const Circuit &input, const vd::Params &prm, bool wantDirect, const std::string &past = "") {
+    vd::Run r = vd::runCase(input, prm, 120, past);
     std::string blob = vd::serializeRun(r);
     std::ostringstream os;
     os << blob.size() << "\n" << blob;
@@ -225,15 +232,20 @@ struct Runner {
     return true;
   }
 
-  void run(const std::string &id, const Circuit &input, const vd::Params &prm, bool wantDirect = true) {
-    run(id, input, prm, wantDirect, vd::runCase(input, prm), nullptr);
+  void run(const std::string &id, const Circuit &input, const vd::Params &prm, bool wantDirect = true, const std::string &past = "") {
+    run(id, input, prm, wantDirect, vd::runCase(input, prm, 120, past), nullptr, past);
   }
 
   // `r` = vd::runCase(input, prm); `pre` = directRun(input, prm) if it has been computed already
+  // `past`: the recipe the placeDetailed run of `r` was given ("" = fresh object); it is part of the failure input
   void run(const std::string &id, const Circuit &input, const vd::Params &prm, bool wantDirect, const vd::Run &r,
-           const DirectRun *pre) {
+           const DirectRun *pre, const std::string &past = "") {
     out.evaluations++;
-    std::string inp = vd::caseString(input, prm);
+    std::string inp = vd::caseString(input, prm) + past;
+    if (!r.pastNote.empty()) {  // harness self-check, expected 0
+      out.count("past_restore_mismatch");
+      out.notes.push_back(id + ": " + r.pastNote);
+    }
     out.count("legalize_" + r.legalizeStatus);
     out.count(prm.nonDefault ? "params_nondefault" : "params_effort");
     if (r.legalizeStatus != "ok") return;
@@ -523,6 +535,10 @@ int main(int argc, char **argv) {
       "generated_reorder = logged moves that the model had to reproduce, in order, with the value before each); the extra pass "
       "runInserts(localSearchNbRows, localSearchNbNeighbours) is driven after run() (pass_I); with hook H3b reorder_windows = windows "
       "whose cells, region boundaries, number of evaluated leaves, best value and decision were compared; "
+      "one generated case in three runs placeDetailed on an object with a past (past_cases: built in a perturbed state, observers "
+      "computeRows/computePlacementArea/hpwl/rowHeight/check called, restored through only the needed setters — past_only_<class>, "
+      "past_restored_by_<setter>, past_restored_by_setupRows_alone; half of them on rows as setupRows produces them; legalize alone "
+      "and the direct run stay on fresh objects), same oracle, correspondence and replay; "
       "non-trivial = the returned HPWL is strictly below the legalized one; distinct by input text";
   Runner rn(out);
   auto runText = [&](const std::string &id, const std::string &text) {
@@ -532,7 +548,7 @@ int main(int argc, char **argv) {
       out.notes.push_back("could not parse case " + id);
       return;
     }
-    rn.run(id, c, p);
+    rn.run(id, c, p, true, vc::pastBlock(text));
   };
   if (!a.replay.empty()) {
     std::string text = vd::jsonField(vd::readFile(a.replay), "input");
@@ -556,7 +572,8 @@ int main(int argc, char **argv) {
   long long n = a.thorough() ? 40000 : (a.search() ? 15000 : 2500);
   // The forked part of every case runs in worker processes on all cores (vd::ParallelBlobs); the parent
   // consumes the results in case order, so the streams are those of a sequential run.
-  auto genCase = [&](long long k, Circuit &c, vd::Params &p) {
+  struct PastOf { bool has = false, shaped = false; vc::Past recipe; std::string text; };
+  auto genCase = [&](long long k, Circuit &c, vd::Params &p, PastOf &po) {
     vh::Rng g = vh::Rng::forCase(a.seed ^ 0xc05, k);
     vc::GenOpts o = optsFor(k);
     c = vc::genCircuit(g, o);
@@ -572,35 +589,55 @@ int main(int argc, char **argv) {
       for (auto &r : rows) { r.minX += dx; r.maxX += dx; r.minY += dy; r.maxY += dy; }
       c.setCellX(x); c.setCellY(y); c.setRows(rows);
     }
+    // one case in three: an object with a past, from a stream of its own (the circuits of the other cases are what they
+    // were); half of them on rows as setupRows produces them (still the C01 domain: uniform disjoint rows, only wider)
+    po = PastOf();
+    if (k % 3 == 1) {
+      vh::Rng gp = vh::Rng::forCase(a.seed ^ 0x9a57c05ull, k);
+      po.has = true;
+      po.shaped = gp.chance(1, 2) && vc::setupShapedRows(gp, c);
+      po.recipe = vc::genPast(gp, c);
+      po.text = po.recipe.text();
+    }
+  };
+  auto countPastOf = [&](const PastOf &po) {
+    if (!po.has) return;
+    vc::countPast(out, "", po.recipe);
+    if (po.shaped) out.count("past_rows_as_setupRows_produces");
   };
   auto wantDirect = [&](long long k) { return !a.thorough() || ((k >> 1) & 1) == 0; };
   if (a.only >= 0) {
     if (a.only < n) {
       Circuit c(0);
       vd::Params p;
-      genCase(a.only, c, p);
-      rn.run("h" + std::to_string(a.only), c, p, wantDirect(a.only));
+      PastOf po;
+      genCase(a.only, c, p, po);
+      countPastOf(po);
+      rn.run("h" + std::to_string(a.only), c, p, wantDirect(a.only), po.text);
     }
   } else {
     vd::ParallelBlobs par(a.out + "/par-h-", n, vd::ParallelBlobs::defaultWorkers(), [&](long long k) {
       Circuit c(0);
       vd::Params p;
-      genCase(k, c, p);
-      return Runner::compute(c, p, wantDirect(k));
+      PastOf po;
+      genCase(k, c, p, po);
+      return Runner::compute(c, p, wantDirect(k), po.text);
     });
     for (long long k = 0; k < n; ++k) {
       Circuit c(0);
       vd::Params p;
-      genCase(k, c, p);
+      PastOf po;
+      genCase(k, c, p, po);
+      countPastOf(po);
       std::string blob;
       vd::Run r;
       DirectRun d;
       bool hasDirect = false;
       if (par.get(k, blob) && Runner::parseBlob(blob, r, hasDirect, d))
-        rn.run("h" + std::to_string(k), c, p, wantDirect(k), r, hasDirect ? &d : nullptr);
+        rn.run("h" + std::to_string(k), c, p, wantDirect(k), r, hasDirect ? &d : nullptr, po.text);
       else {
         out.count("recomputed_in_parent");
-        rn.run("h" + std::to_string(k), c, p, wantDirect(k));
+        rn.run("h" + std::to_string(k), c, p, wantDirect(k), po.text);
       }
     }
   }
